@@ -8,7 +8,8 @@ m=re.search(r'exit=(\d+)',out); rc=int(m.group(1)) if m else -1
 obls=re.findall(r'obligation=(\S+)',out)+re.findall(r'bounded-standin=(\S+)',out)
 p=f'/verif/seeded/{sid}/meta.json'; meta=json.load(open(p))
 if rc==1 and obls:
-    meta['detected_by']={"check":f"./check {prop} quick","obligation":obls[0],"exit":1,"all_failed":obls[:8],"replayed":"replayed-on-real-code" in out}
+    sv=re.findall(r'solver=(\S+)',out)
+    meta['detected_by']={"check":f"./check {prop} quick","obligation":obls[0],"exit":1,"all_failed":obls[:8],"verdicts":sv[:8],"replayed":"replayed-on-real-code" in out}
 else:
     meta['detected_by']={"check":f"./check {prop} quick","exit":rc,"note":"MISSED"}
 json.dump(meta,open(p,'w'),indent=1,ensure_ascii=False)
